@@ -16,6 +16,13 @@
 //	change_rejects_empty_private  ChangePassphrase returns an error for an empty new PRIVATE
 //	                              passphrase (as Create does) before anything else happens
 //
+//	privkey_checks_lock_first     (*managedAddress).PrivKey returns the locked error before it
+//	                              calls a.unlock(..), and unlock tests privKeyEncrypted before the
+//	                              cached clear text.  false: PrivKey has no lock test and unlock
+//	                              tests locked, then privKeyEncrypted, inside `if len(a.privKeyCT) == 0`
+//	unlock_loads_queued_accounts  Manager.Unlock calls loadAccountInfo for the account of every
+//	                              deriveOnUnlock entry before the loop that decrypts account keys
+//
 //	usage: extract-c05 <repo>
 //
 // Everything is syntactic.  Shapes the program does not understand make it
@@ -43,6 +50,8 @@ type result struct {
 	UnlockSkips   bool              `json:"unlock_skips_keyless_accounts"`
 	KeylessNotQ   bool              `json:"keyless_addresses_not_queued"`
 	RejectsEmpty  bool              `json:"change_rejects_empty_private"`
+	PrivKeyFirst  bool              `json:"privkey_checks_lock_first"`
+	UnlockLoads   bool              `json:"unlock_loads_queued_accounts"`
 	Why           map[string]string `json:"why"`
 	LockCaseTypes []string          `json:"lock_case_types"`
 }
@@ -641,6 +650,186 @@ func changeRejectsEmpty(m method) (bool, string) {
 	return false, "ChangePassphrase accepts an empty new private passphrase (Create does not)"
 }
 
+// ---- F8 -------------------------------------------------------------------
+
+func privKeyChecksFirst(priv, unlock method) (bool, string) {
+	r := priv.recvName
+	wo := r + ".manager.rootManager.WatchOnly()"
+	lk := r + ".manager.rootManager.IsLocked()"
+	call := -1
+	for i, st := range priv.decl.Body.List {
+		if containsCall(st, r+".unlock") {
+			call = i
+			break
+		}
+	}
+	if call < 0 {
+		die("managedAddress.PrivKey: no call of %s.unlock at statement level; unknown shape", r)
+	}
+	woSeen, lkSeen := false, false
+	for _, st := range priv.decl.Body.List[:call] {
+		is, ok := st.(*ast.IfStmt)
+		if !ok {
+			if mentionsCallName(st, "IsLocked") || mentionsCallName(st, "WatchOnly") {
+				die("managedAddress.PrivKey: a statement of type %T before unlock() mentions IsLocked/WatchOnly; unknown shape", st)
+			}
+			continue
+		}
+		switch str(is.Cond) {
+		case wo:
+			if !returnsError(is.Body) {
+				die("managedAddress.PrivKey: the watching-only guard does not return an error")
+			}
+			woSeen = true
+		case lk:
+			if !returnsError(is.Body) {
+				die("managedAddress.PrivKey: the locked guard does not return an error")
+			}
+			if !woSeen {
+				die("managedAddress.PrivKey: the locked guard precedes the watching-only guard; the model orders them the other way")
+			}
+			lkSeen = true
+		default:
+			if mentionsCallName(is, "IsLocked") || mentionsCallName(is, "WatchOnly") {
+				die("managedAddress.PrivKey: guard `if %s` is not understood", str(is.Cond))
+			}
+		}
+	}
+	if !woSeen {
+		die("managedAddress.PrivKey: guard `if %s` not found before unlock(); the model does not apply", wo)
+	}
+	// unlock(): where are the tests relative to `if len(a.privKeyCT) == 0 { decrypt }`
+	u := unlock.recvName
+	ctCond := "len(" + u + ".privKeyCT) == 0"
+	encCond := "len(" + u + ".privKeyEncrypted) == 0"
+	ulk := u + ".manager.rootManager.IsLocked()"
+	var ctIf *ast.IfStmt
+	encTop, ctIdx := -1, -1
+	for i, st := range unlock.decl.Body.List {
+		is, ok := st.(*ast.IfStmt)
+		if !ok {
+			continue
+		}
+		switch str(is.Cond) {
+		case ctCond:
+			ctIf, ctIdx = is, i
+		case encCond:
+			if !returnsError(is.Body) {
+				die("managedAddress.unlock: `if %s` does not return an error", encCond)
+			}
+			encTop = i
+		default:
+			if mentionsCallName(is, "IsLocked") || mentions(is, "privKeyEncrypted") {
+				die("managedAddress.unlock: guard `if %s` is not understood", str(is.Cond))
+			}
+		}
+	}
+	if ctIf == nil {
+		die("managedAddress.unlock: `if %s { decrypt }` not found; unknown shape", ctCond)
+	}
+	var inner []string
+	for _, st := range ctIf.Body.List {
+		if is, ok := st.(*ast.IfStmt); ok {
+			c := str(is.Cond)
+			if c == ulk || c == encCond {
+				if !returnsError(is.Body) {
+					die("managedAddress.unlock: inner guard `if %s` does not return an error", c)
+				}
+				inner = append(inner, c)
+			} else if mentionsCallName(is, "IsLocked") || mentionsCallName(is, "WatchOnly") {
+				die("managedAddress.unlock: inner guard `if %s` is not understood", c)
+			}
+		}
+	}
+	switch {
+	case lkSeen && encTop >= 0 && encTop < ctIdx && len(inner) == 0:
+		return true, "PrivKey returns ErrLocked before unlock(); unlock() tests privKeyEncrypted before the cached clear text"
+	case !lkSeen && encTop < 0 && len(inner) == 2 && inner[0] == ulk && inner[1] == encCond:
+		return false, "PrivKey has no lock test; unlock() tests IsLocked and privKeyEncrypted only inside `if " + ctCond + "` (a cached clear text is returned without any test)"
+	}
+	die("managedAddress.PrivKey/unlock: lock test in PrivKey=%v, privKeyEncrypted test at top of unlock=%v, tests inside the decrypt branch=%v: the model has no such case", lkSeen, encTop >= 0, inner)
+	return false, ""
+}
+
+// ---- F9 -------------------------------------------------------------------
+
+func unlockLoadsQueued(m method) (bool, string) {
+	r := m.recvName
+	var res *bool
+	why := ""
+	ast.Inspect(m.decl.Body, func(n ast.Node) bool {
+		outer, ok := n.(*ast.RangeStmt)
+		if !ok || str(outer.X) != r+".scopedManagers" || outer.Value == nil {
+			return true
+		}
+		x := str(outer.Value)
+		// position of the loop that decrypts the account keys
+		acct := -1
+		for i, st := range outer.Body.List {
+			if rs, ok := st.(*ast.RangeStmt); ok && str(rs.X) == x+".acctInfo" && containsCall(rs, r+".cryptoKeyPriv.Decrypt") {
+				acct = i
+				break
+			}
+		}
+		if acct < 0 {
+			return true
+		}
+		if res != nil {
+			die("Unlock: more than one loop over the scoped managers decrypts account keys")
+		}
+		pre := false
+		for _, st := range outer.Body.List[:acct] {
+			rs, ok := st.(*ast.RangeStmt)
+			if !ok {
+				if containsCall(st, x+".loadAccountInfo") {
+					die("Unlock: loadAccountInfo is called before the account loop outside a `for .. range %s.deriveOnUnlock`; unknown shape", x)
+				}
+				continue
+			}
+			if str(rs.X) != x+".deriveOnUnlock" || rs.Value == nil {
+				if containsCall(rs, x+".loadAccountInfo") {
+					die("Unlock: a loop before the account loop calls loadAccountInfo but does not range over %s.deriveOnUnlock", x)
+				}
+				continue
+			}
+			v := str(rs.Value)
+			okCall := false
+			ast.Inspect(rs.Body, func(y ast.Node) bool {
+				if c, ok := y.(*ast.CallExpr); ok && str(c.Fun) == x+".loadAccountInfo" && len(c.Args) == 2 &&
+					str(c.Args[1]) == v+".managedAddr.InternalAccount()" {
+					okCall = true
+				}
+				return !okCall
+			})
+			if !okCall {
+				die("Unlock: the loop over %s.deriveOnUnlock before the account loop does not call %s.loadAccountInfo(ns, %s.managedAddr.InternalAccount())", x, x, v)
+			}
+			// on error: m.lock(); return err
+			guard := false
+			for _, b := range rs.Body.List {
+				if is, ok := b.(*ast.IfStmt); ok && str(is.Cond) == "err != nil" && containsCall(is.Body, r+".lock") && returnsError(is.Body) {
+					guard = true
+				}
+			}
+			if !guard {
+				die("Unlock: the preload loop does not `if err != nil { %s.lock(); return err }`", r)
+			}
+			pre = true
+		}
+		res = &pre
+		if pre {
+			why = "Unlock calls " + x + ".loadAccountInfo for every " + x + ".deriveOnUnlock entry before it decrypts the account keys"
+		} else {
+			why = "Unlock decrypts the keys of the CACHED accounts only; an account dropped by InvalidateAccountCache is reloaded inside the derive-on-unlock loop while the manager is still locked"
+		}
+		return true
+	})
+	if res == nil {
+		die("Unlock: `for _, manager := range %s.scopedManagers { .. for .. range manager.acctInfo { .. Decrypt .. } .. }` not found", r)
+	}
+	return *res, why
+}
+
 func main() {
 	if len(os.Args) != 2 {
 		die("usage: extract-c05 <repo>")
@@ -657,6 +846,8 @@ func main() {
 	res.UnlockSkips, res.Why["unlock_skips_keyless_accounts"] = unlockSkips(one(ms, "Unlock", "Manager"))
 	res.KeylessNotQ, res.Why["keyless_addresses_not_queued"] = keylessNotQueued(one(ms, "keyToManaged", "ScopedKeyManager"))
 	res.RejectsEmpty, res.Why["change_rejects_empty_private"] = changeRejectsEmpty(one(ms, "ChangePassphrase", "Manager"))
+	res.PrivKeyFirst, res.Why["privkey_checks_lock_first"] = privKeyChecksFirst(one(ms, "PrivKey", "managedAddress"), one(ms, "unlock", "managedAddress"))
+	res.UnlockLoads, res.Why["unlock_loads_queued_accounts"] = unlockLoadsQueued(one(ms, "Unlock", "Manager"))
 
 	b, err := json.MarshalIndent(res, "", " ")
 	if err != nil {
